@@ -184,7 +184,7 @@ func bigMap(j *jobCtx, kind string, r *rand.Rand) {
 		cfgs = []bc{{"nat", "", 3, 40}, {"nat", "", 7, 70}, {"halfx", "", 9, 70}, {"nat", "", 16, 70}}
 	}
 	if kind == "hashbidimap" || kind == "treebidimap" || kind == "linkedhashmap" || kind == "hashmap" {
-		cfgs = append(cfgs, bc{cfgs[0].cmp, "nat", 0, 70}) // past 64 entries
+		cfgs = append(cfgs, bc{cfgs[0].cmp, "nat", 0, 71}) // past 64 entries (71: val() below stays a permutation)
 	}
 	for _, c := range cfgs {
 		n := c.n
@@ -208,11 +208,15 @@ func bigMap(j *jobCtx, kind string, r *rand.Rand) {
 			cs = append(cs, Call{Op: "Put", I: k, V: val(k)})
 		}
 		cs = append(cs, Call{Op: "Keys"}, Call{Op: "Get", I: n / 2})
-		last := n/4 + 1
-		for k := n - 1; k > last; k-- { // shrink to peak/4 + 1 ...
+		last := n/4 + 4
+		for k := n - 1; k > last; k-- { // shrink to a little above a quarter of the peak ...
 			cs = append(cs, Call{Op: "Remove", I: k})
 		}
-		// ... then a Put whose key and value both belong to other pairs, a re-Put, removals of absent keys
+		// ... then walk down across the quarter with Puts whose key AND value both belong to other pairs (bidi: each
+		// evicts one pair, so the size drops by one per call), then a re-Put and removals of absent keys
+		for t := 0; t < 8; t++ {
+			cs = append(cs, Call{Op: "Put", I: last - 2*t, V: val(last - 2*t - 1)}, Call{Op: "Get", I: last - 2*t - 1})
+		}
 		cs = append(cs, Call{Op: "Put", I: 0, V: val(1)}, Call{Op: "Keys"}, Call{Op: "Put", I: 2, V: val(2)}, Call{Op: "Remove", I: n + 5},
 			Call{Op: "Remove", I: 3}, Call{Op: "Put", I: 3, V: val(3)}, Call{Op: "Values"}, Call{Op: "Size"})
 		runScript(x, cs)
